@@ -277,3 +277,49 @@ Definition wrap (w : wspec) (C : Z) (labels : list Z) (ds : dataset) : dataset :
                 | IClass => w_getitem w C labels idx
                 | IOther _ => ds it idx
                 end.
+
+(* ---------- constructions and accessor calls on SHARED objects ---------- *)
+(* A dataset object keeps its labels in a storage (list / ndarray / tensor).  Its bulk accessor hands out either
+   that storage itself (`return self.targets`; getall_as_numpy / getall_as_tensor pass an ndarray / tensor on
+   without copying) or a copy.  A constructor or accessor that writes into the object it was handed therefore
+   writes into the wrapped dataset exactly when the storage itself was handed out.
+   [wr w C labels] = the (position, value) assignments a construction of wrapper w performs on the bulk object it
+   received.  The code that exists performs none: every wrapper derives a table of its own (np.where, tolist(),
+   list(...), a copy) and leaves what it received alone -- [no_writes]. *)
+Inductive handout := HOwn | HCopy.
+Definition writes := wspec -> Z -> list Z -> list (nat * Z).
+Definition no_writes : writes := fun _ _ _ => [].
+
+Definition apply_writes (h : handout) (ws : list (nat * Z)) (stored : list Z) : list Z :=
+  match h with
+  | HOwn => fold_left (fun l p => set_nth (fst p) (snd p) l) ws stored
+  | HCopy => stored
+  end.
+(* the wrapped dataset's storage after one construction on it *)
+Definition construct_gen (wr : writes) (h : handout) (C : Z) (stored : list Z) (w : wspec) : list Z :=
+  apply_writes h (wr w C stored) stored.
+(* ... after a whole construction history (wrappers built one after the other on the same dataset object) *)
+Definition history_gen (wr : writes) (h : handout) (C : Z) (hist : list wspec) (stored : list Z) : list Z :=
+  fold_left (construct_gen wr h C) hist stored.
+(* what wrapper w shows when it is built on the dataset object AFTER the history *)
+Definition items_after_gen (wr : writes) (h : handout) (C : Z) (hist : list wspec) (w : wspec) (stored : list Z) : list Z :=
+  w_items w C (history_gen wr h C hist stored).
+Definition getall_after_gen (wr : writes) (h : handout) (C : Z) (hist : list wspec) (w : wspec) (stored : list Z)
+  : option (list Z) :=
+  w_getall w C (history_gen wr h C hist stored).
+
+(* the code that exists *)
+Definition construct := construct_gen no_writes.
+Definition history := history_gen no_writes.
+Definition items_after := items_after_gen no_writes.
+Definition getall_after := getall_after_gen no_writes.
+
+(* an IMPURE variant for contrast (not the code that exists): a swap-label constructor that assigns the swapped
+   labels through the boolean mask into the array it fetched (`classes[apply] = new[apply]`) *)
+Fixpoint masked_writes (k : nat) (a : list bool) (x : list Z) : list (nat * Z) :=
+  match a, x with
+  | b :: a', u :: x' => (if b then [(k, u)] else []) ++ masked_writes (S k) a' x'
+  | _, _ => []
+  end.
+Definition swap_writes_in_place : writes :=
+  fun w _ _ => match w with WSwap p => masked_writes 0 (sw_apply p) (sw_new p) | _ => [] end.
